@@ -88,7 +88,9 @@ func decAlphabet() []*big.Int {
 			add(x)
 		}
 	}
-	qs := []*big.Int{big.NewInt(0), big.NewInt(1), big.NewInt(2), big.NewInt(3), ten18, pow(2, 200)}
+	// integer parts: small, around the int64 bounds (the Int64 conversions), large
+	qs := []*big.Int{big.NewInt(0), big.NewInt(1), big.NewInt(2), big.NewInt(3), ten18, pow(2, 200),
+		new(big.Int).Sub(pow(2, 63), big.NewInt(2)), new(big.Int).Sub(pow(2, 63), bigOne), pow(2, 63), new(big.Int).Add(pow(2, 63), bigOne), pow(10, 19), pow(2, 64)}
 	rs := []*big.Int{big.NewInt(0), big.NewInt(1), new(big.Int).Sub(half18, bigOne), half18, new(big.Int).Add(half18, bigOne), new(big.Int).Sub(ten18, bigOne)}
 	for _, q := range qs {
 		for _, r := range rs {
